@@ -9,12 +9,14 @@ package main
 
 import (
 	"encoding/hex"
+	"encoding/json"
 	"errors"
 	"flag"
 	"fmt"
 	"math/big"
 	"math/rand"
 	"net"
+	"os"
 	"runtime"
 	"strconv"
 	"strings"
@@ -212,6 +214,9 @@ func (x *allocRun) newAlloc() error {
 // concretise a hint letter into a net.IPNet; ok=false if the letter has no concrete form here.
 func (x *allocRun) hintNet(l letter) (net.IPNet, bool) {
 	g := x.g
+	if l.long && (g.kind == "v4" || g.page >= 128) {
+		l.long = false // no prefix can be longer than this allocation length
+	}
 	switch l.k {
 	case "none":
 		return net.IPNet{}, true
@@ -348,6 +353,9 @@ func (x *allocRun) do(l letter) bool {
 			fn = net.IPNet{IP: ip, Mask: net.CIDRMask(32, 32)}
 		} else {
 			plen := g.page
+			if l.sub && g.page >= 128 {
+				l.sub = false
+			}
 			if l.sub {
 				plen = g.page + 1 + x.r.Intn(128-g.page)
 				off := new(big.Int).Rand(x.r, g.bsize)
@@ -843,6 +851,7 @@ func runAlloc(args []string) error {
 	walks := fs.Int("walks", 28, "walk: number of random walks")
 	rounds := fs.Int("rounds", 8, "conc: rounds of 16 goroutines")
 	replay := fs.String("replay", "", "re-execute a recorded sequential scenario")
+	in := fs.String("in", "", "letters: JSON file with the call sequences TLC generated")
 	if err := fs.Parse(args); err != nil {
 		return err
 	}
@@ -855,6 +864,28 @@ func runAlloc(args []string) error {
 		return runAllocReplay(t, *replay)
 	}
 	switch *mode {
+	case "letters":
+		// model -> code: call sequences generated by TLC (spec/AllocGen.tla, N = 4), on every 4-block geometry
+		raw, err := os.ReadFile(*in)
+		if err != nil {
+			return err
+		}
+		var scns [][]map[string]interface{}
+		if err := json.Unmarshal(raw, &scns); err != nil {
+			return err
+		}
+		gs := smallGeoms(4)
+		for k, sc := range scns {
+			x := &allocRun{g: gs[k%len(gs)], t: t, r: rand.New(rand.NewSource(*seed*7 + int64(k))), domain: *domain}
+			if err := x.newAlloc(); err != nil {
+				return err
+			}
+			for _, l := range sc {
+				x.do(letter{op: toStr(l["op"]), k: toStr(l["k"]), b: toInt(l["b"]), long: l["long"] == true, sub: l["sub"] == true,
+					side: toStr(l["side"]), d: toInt(l["d"])})
+			}
+		}
+		return nil
 	case "seq":
 		return runAllocSeq(t, *seed, *domain, *maxN, *suffix)
 	case "walk":
